@@ -65,7 +65,7 @@ VARIANTS = [
     ("C04", "mutant", P + "deviate.py", "out.varianceTimesEntries = float(variance) * float(entries)", "out.varianceTimesEntries = float(variance)", "variance not multiplied back"),
     ("C04", "mutant", P + "categorize.py", "            out.contentType = self.contentType\n            out.bins = {}", "            out.bins = {}", "content type lost by + in reloaded form"),
     ("C04", "mutant", P + "stack.py", '["entries", "bins:type", "bins", "nanflow:type", "nanflow"],\n            ["name", "bins:name"],', '["entries", "bins:type", "bins", "nanflow:type", "nanflow"],\n            ["name"],', "optional key unknown to the reader"),
-    ("C04", "mutant", "histogrammar/specialized.py", 'class CentrallyHistogramMethods(CentrallyBin, plotmpl.CentrallyHistogramMethods):\n    """Methods that are implicitly added to container combinations that look like centrally binned histograms."""\n\n    @property\n    def name(self):\n        return "CentrallyBin"', 'class CentrallyHistogramMethods(CentrallyBin, plotmpl.CentrallyHistogramMethods):\n    """Methods that are implicitly added to container combinations that look like centrally binned histograms."""\n\n    @property\n    def name(self):\n        return "CentrallyHistogram"', "specialised class changes the serialised type"),
+    ("C04", "mutant", "histogrammar/specialized.py", '    """Methods that are implicitly added to containers that look like centrally histograms."""\n\n    @property\n    def name(self):\n        return "CentrallyBin"', '    """Methods that are implicitly added to containers that look like centrally histograms."""\n\n    @property\n    def name(self):\n        return "CentrallyHistogram"', "specialised class changes the serialised type"),
     ("C04", "neutral", P + "sum.py", 'if isinstance(json, dict) and hasKeys(json.keys(), ["entries", "sum"], ["name"]):', 'if isinstance(json, dict) and hasKeys(json.keys(), ["sum", "entries"], ["name"]):', "key order"),
     ("C04", "mutant", P + "minmax.py", "self.min = min(self.min, float(q.min()))", "self.min = min(self.min, q.min())", "numpy scalar stored into a serialised field"),
     ("C04", "mutant", P + "bag.py", "v = tuple(map(floatOrNan, nv[\"v\"]))", "v = tuple(float(d) for d in nv[\"v\"])", "reader builds float NaN keys"),
@@ -205,6 +205,95 @@ def _run_one(args):
         return (prop, kind, rel, note, "analysis-error", f"{type(e).__name__}: {e}"[:200])
 
 
+def parse_patch(text):
+    """unified diff -> {relpath: [(old_start, old_lines, new_lines)]}"""
+    files = {}
+    cur = None
+    hunk = None
+    for line in text.rstrip("\n").split("\n"):
+        if line.startswith("+++ "):
+            name = line[4:].strip()
+            name = name[2:] if name.startswith("b/") else name
+            cur = files.setdefault(name, [])
+            hunk = None
+        elif line.startswith("--- ") or line.startswith("diff ") or line.startswith("index "):
+            continue
+        elif line.startswith("@@") and cur is not None:
+            import re
+            m = re.match(r"@@ -(\d+)", line)
+            hunk = [int(m.group(1)), [], []]
+            cur.append(hunk)
+        elif hunk is not None:
+            if line.startswith("+"):
+                hunk[2].append(line[1:])
+            elif line.startswith("-"):
+                hunk[1].append(line[1:])
+            elif line.startswith(" ") or line == "":
+                hunk[1].append(line[1:])
+                hunk[2].append(line[1:])
+            elif line.startswith("\\"):
+                continue
+    return files
+
+
+def apply_hunks(src, hunks):
+    lines = src.split("\n")
+    offset = 0
+    for start, old, new in hunks:
+        # trailing empty context produced by the final split
+        while old and new and old[-1] == "" and new[-1] == "" and len(old) > 1 and (start - 1 + offset + len(old)) > len(lines):
+            old, new = old[:-1], new[:-1]
+        want = start - 1 + offset
+        found = None
+        for delta in range(0, 400):
+            for pos in (want + delta, want - delta):
+                if 0 <= pos <= len(lines) - len(old) and lines[pos:pos + len(old)] == old:
+                    found = pos
+                    break
+            if found is not None:
+                break
+        if found is None:
+            return None
+        lines[found:found + len(old)] = new
+        offset += len(new) - len(old)
+    return "\n".join(lines)
+
+
+def _run_seed(args):
+    prop, name, patch_path, root = args
+    try:
+        files = parse_patch(open(patch_path, encoding="utf-8").read())
+    except OSError:
+        return (prop, "seed", name, name, "skipped", "patch not found")
+    ov = {}
+    for rel, hunks in files.items():
+        try:
+            src = open(os.path.join(root, rel), encoding="utf-8").read()
+        except OSError:
+            return (prop, "seed", name, name, "skipped", f"{rel} not found")
+        out = apply_hunks(src, hunks)
+        if out is None:
+            return (prop, "seed", name, name, "skipped", f"patch does not apply to the current {rel}")
+        try:
+            compile(out, rel, "exec")
+        except SyntaxError as e:
+            return (prop, "seed", name, name, "skipped", f"patched {rel} does not compile: {e}")
+        ov[rel] = out
+    mod = importlib.import_module(f"hgsa.rules.{prop.lower()}")
+    try:
+        base = Report(prop, "quick")
+        mod.run(Repo(root), base, "quick")
+        basekeys = {f.key for f in base.findings}
+        rep = Report(prop, "quick")
+        mod.run(Repo(root, overrides=ov), rep, "quick")
+        newf = [f for f in rep.findings if f.key not in basekeys]
+        return (prop, "seed", name, name, "reported" if newf else "silent", newf[0].text()[:200] if newf else "")
+    except AnalysisError as e:
+        return (prop, "seed", name, name, "analysis-error", str(e)[:200])
+    except Exception as e:  # pragma: no cover
+        return (prop, "seed", name, name, "analysis-error", f"{type(e).__name__}: {e}"[:200])
+
+
 def run(prop, root, jobs=16):
     """Run the variants of one property. Returns dict summary for the evidence file."""
     todo = [(p, k, rel, old, new, note or "", root) for (p, k, rel, old, new, note) in VARIANTS if p == prop]
@@ -212,6 +301,18 @@ def run(prop, root, jobs=16):
     if todo:
         with ProcessPoolExecutor(max_workers=min(jobs, len(todo))) as ex:
             results = list(ex.map(_run_one, todo))
+    # the confirmed seeded changes written for this property (independent sub-agents): applied in memory, must be reported
+    seed_root = os.path.join(os.path.dirname(os.path.dirname(os.path.abspath(__file__))), "seeded")
+    seeds = []
+    if os.path.isdir(seed_root):
+        for d in sorted(os.listdir(seed_root)):
+            if d.startswith(prop + "-") and os.path.exists(os.path.join(seed_root, d, "patch.diff")):
+                seeds.append((prop, d, os.path.join(seed_root, d, "patch.diff"), root))
+    seed_results = []
+    if seeds:
+        with ProcessPoolExecutor(max_workers=min(jobs, len(seeds))) as ex:
+            seed_results = list(ex.map(_run_seed, seeds))
+    results += [(r[0], "mutant", r[2], "seeded change " + r[3], r[4], r[5]) for r in seed_results]
     mutants = [r for r in results if r[1] == "mutant" and r[4] != "skipped"]
     neutrals = [r for r in results if r[1] == "neutral" and r[4] != "skipped"]
     return {
